@@ -177,7 +177,7 @@ func TestTCP(t *testing.T) {
 		return
 	}
 	r.Rule("TCP: command sequences from per-protocol grammars (ftp, smtp incl. DATA/BDAT, redis, memcached, telnet, http keep-alive, elasticsearch, eos, ethereum, docker, cwmp, ldap) delivered through the real server on the in-memory listener as a single write (pipelined), lock-step, k random cuts and 1-byte dribble; oracle = expected event list computed from the generated command list (reference) AND equality with the single-write event list (metamorphic); non-trivial = >=2 commands and (a cut or >=2 requests in one write); distinct by wire bytes + delivery")
-	r.Rapid(t, "TestTCP", r.Pick(450, 4500), func(rt *rapid.T) {
+	r.Rapid(t, "TestTCP", r.Pick(450, 2500), func(rt *rapid.T) {
 		service := rapid.SampledFrom(svc.TCPServices).Draw(rt, "service")
 		d := svc.GenTCP(rt, service)
 		mode := rapid.SampledFrom([]string{"single", "lockstep", "cuts", "cuts", "dribble"}).Draw(rt, "mode")
@@ -343,7 +343,7 @@ func TestUDP(t *testing.T) {
 		return
 	}
 	r.Rule("UDP: datagrams for dns, tftp, snmp, memcached (8-byte header, 1..3 command lines) and counterstrike, each handed to the server's dispatcher as the socket listener does (wrapped in the timeout connection), from a fresh source address; oracle = the datagram's decoded fields appear in exactly the expected events; non-trivial = datagram that decodes")
-	r.Rapid(t, "TestUDP", r.Pick(1000, 10000), func(rt *rapid.T) {
+	r.Rapid(t, "TestUDP", r.Pick(1000, 6000), func(rt *rapid.T) {
 		service := rapid.SampledFrom(svc.UDPServices).Draw(rt, "service")
 		d := svc.GenUDP(rt, service)
 		if service == "tftp" && rapid.Bool().Draw(rt, "upload") {
@@ -498,7 +498,7 @@ func TestUDPSocketBurst(t *testing.T) {
 		return
 	}
 	r.Rule("UDP through the REAL socket listener on loopback: bursts of 2..24 distinct grammar datagrams sent back to back from distinct source ports; oracle = each datagram's own decoded fields in the events of its source port (a datagram whose events never show is re-measured twice)")
-	r.Rapid(t, "TestUDPSocketBurst", r.Pick(60, 1500), func(rt *rapid.T) {
+	r.Rapid(t, "TestUDPSocketBurst", r.Pick(60, 600), func(rt *rapid.T) {
 		service := rapid.SampledFrom(svc.UDPServices).Draw(rt, "service")
 		c := sockCase{Service: service}
 		n := rapid.IntRange(2, 24).Draw(rt, "burst")
